@@ -108,7 +108,12 @@ theorem model_obs_meets_spec (cfg : Cfg)
     (hp : SafeNativesPure cfg) (hset : RefSetUnsafe cfg) (fuel : Nat) (e : Expr) (env : Env) :
     specStep (modelObs cfg .program false fuel e env) = none := by
   have h := sandbox_noninterference cfg hg hcc hp hset fuel e env
+  have hc := sandbox_only_safe_calls cfg hcc fuel e env
   simp [specStep, modelObs, observe, h]
+  intro x hx hnx
+  rcases hc x hx with h' | h'
+  · exact absurd h' hnx
+  · exact h'
 
 /-- … and for the call of a native that is not flagged safe (the `N` lines of the harness). -/
 theorem model_native_obs_meets_spec (cfg : Cfg) (hcc : cfg.callCheck = true) (name : String) (f : Native)
@@ -116,6 +121,8 @@ theorem model_native_obs_meets_spec (cfg : Cfg) (hcc : cfg.callCheck = true) (na
     specStep (modelObs cfg .native false (n + 2) (.call (.lit (.fn name)) args) env) = none := by
   obtain ⟨h1, h2⟩ := unsafe_native_call_rejected cfg hcc name f hn hs args n env
   simp [specStep, modelObs, observe, h1, h2]
+  intro x hx hnx
+  exact absurd hx hnx
 
 /-! ## The tables generated from the source on this run -/
 
@@ -295,6 +302,9 @@ example : specTrace [{ kind := .program, flagged := false, outcome := .ok, chang
                      { kind := .program, flagged := false, outcome := .ok, changed := true, leak := false }]
     = some .stateUnchanged := by decide
 example : specStep { kind := .native, flagged := false, outcome := .ok, changed := false, leak := false } = some .onlySafeCalls := by decide
+example : specStep { kind := .program, flagged := false, outcome := .err, changed := false, leak := false, unsafeInvoked := true }
+    = some .onlySafeCalls := by decide
+example : specStep { kind := .native, flagged := false, outcome := .err, changed := false, leak := false } = none := by decide
 example : specStep { kind := .field, flagged := true, outcome := .ok, changed := false, leak := false } = some .hiddenFieldUnreadable := by decide
 example : specStep { kind := .program, flagged := false, outcome := .ok, changed := false, leak := true } = some .noLeak := by decide
 example : specStep { kind := .native, flagged := true, outcome := .err, changed := false, leak := false } = none := by decide
